@@ -3,6 +3,7 @@ import json
 import logging
 import os
 import pickle
+import threading
 
 from .sensor import ChildSensor, Sensor
 
@@ -18,6 +19,7 @@ class Persistence:
         self.need_save = True
         self.persistence_file = persistence_file
         self.persistence_bak = f"{self.persistence_file}.bak"
+        self._save_lock = threading.Lock()
         self.schedule_save_sensors = schedule_factory(self.save_sensors)
 
     def _save_pickle(self, filename):
@@ -45,7 +47,16 @@ class Persistence:
             self._sensors.update(json.load(file_handle, cls=MySensorsJSONDecoder))
 
     def save_sensors(self):
-        """Save sensors to file."""
+        """Save sensors to file.
+
+        A scheduled save runs in its own thread and can still be writing when
+        the gateway is stopped. Only one save at a time writes the files.
+        """
+        with self._save_lock:
+            self._save_sensors()
+
+    def _save_sensors(self):
+        """Save sensors to file. The caller holds the save lock."""
         if not self.need_save:
             return
         fname = os.path.realpath(self.persistence_file)
